@@ -16,7 +16,7 @@ CHECKS = {
  'C02': dict(
     technique="runtime monitor: reference-model oracle - library expressions evaluated in a tensor model whose amplitudes are explicit determinant-space RSPT coefficients, compared with the RSPT numbers (energies, amplitudes, residuals + sensitivity probe, expectation values)",
     category='exploration', design='4/C02',
-    text="mp and re partitioning, first-order singles on/off (MP reference with free, non-zero first-order singles injected into the explicit RSPT recursion), energies through order 3 (4 thorough), amplitude classes singles..quadruples, 1- and 2-particle expectation values, fresh and cache-warmed GroundState objects; every request compared on all index assignments of model spaces up to (4,4). Residual checks are guarded by a sensitivity probe (perturbed amplitudes must give a non-zero residual).",
+    text="mp and re partitioning, first-order singles on/off (MP reference with free, non-zero first-order singles injected into the explicit RSPT recursion), energies through order 3 (4 thorough), amplitude classes singles..quadruples, 1- and 2-particle expectation values, fresh and cache-warmed GroundState objects; every request compared on all index assignments of model spaces up to (4,4). Residual checks are guarded by a sensitivity probe (perturbed amplitudes must give a non-zero residual). The Taylor series of the norm factor (expand_norm_factor for min_order 1-3, norm_factor on symbolic overlaps) through order 9 (12 thorough) and every observed gen_term_orders call (post-condition hook) are compared with an independently written inverse power series / enumeration of compositions.",
     note="Trusted: vlib/fock.py RSPT (Gaussian elimination over F_p), TM evaluator, real model Hamiltonians (tNcc = tN). RE order-2 quadruples residual is out of bounds (> 25 min derivation)."),
  'C03': dict(
     technique="runtime monitor: reference-model oracle - explicit intermediate-state power series in determinant space (Gram-Schmidt + S^-1/2 series) vs. the library's secular-matrix blocks, precursor blocks, matrix-vector products and block-order tables",
@@ -54,7 +54,7 @@ CHECKS = {
     text="~600 generated inputs per quick run, ~2400 operations (split+recombine, canonicalize_sign, permute_num, cancel_orb_energy_frac, symbolic<->explicit denominators, factor_eri_parts, factor_denom, diagonalize_fock, block_diagonalize_fock) compared on all target assignments; documented refusals counted per operation.",
     note="Trusted: TM evaluator incl. element-wise modular inversion of brackets; real orbital basis."),
  'C06': dict(
-    technique="runtime monitor: brute-force orbit oracle on the public tensor constructors (construction and subs), forced-zero and non-identification probes, assumption-step contracts (idempotence, untouched names, TM value), and a history monitor hooked on the tensor classes' __new__ during real derivations",
+    technique="runtime monitor: brute-force orbit oracle on the public tensor constructors (construction and subs), forced-zero and non-identification probes, assumption-step contracts (idempotence, untouched names, TM value), and a history monitor hooked on the tensor classes' __new__ during real derivations; post-condition on every index handed out by the registry (name, space, spin as requested)",
     category='exploration', design='4/C06',
     text="~900 tuples x whole orbit (~7000 constructed elements) per quick run over pools mixing spaces, spins, numbered names, repeated indices and same-name distinct Index objects; 90 delta cases; 200 assumption cases; ~1100 monitored constructions of three derivation pipelines.",
     note="Trusted: sympy structural identity (a - s*b is S.Zero). A consistent but different tie-break order in the bra-ket canonicalisation is not a violation (identification is what the property states)."),
@@ -104,9 +104,9 @@ CHECKS = {
     text="~310 generated expressions per quick run over 15 registered intermediates (900 thorough, 36 of them with third-order intermediates): (intermediate tensor x free tensor) combinations, fully/once expanded, perturbed expansions (prefactor changed -> mixed-prefactor path, term dropped -> incomplete), extra denominators over the intermediate's indices, the same intermediate twice in a term, pairs differing in the left-over denominator only, implicit-target expansions, random subsets / types / max_order requests; the repository's factor-test expressions; the ADC(2) ph/ph reduce+factor pipeline of the example script (thorough).",
     note="Trusted: TM evaluator; definitional arrays merged per (tensor name, rank). RE residual intermediates (tensor = placeholder 0) are exercised in C12, not here."),
  'C19': dict(
-    technique="runtime monitor: differential execution - every request of a catalogue runs in fresh interpreter processes under several PYTHONHASHSEEDs, after random prior API-call histories and from a scratch copy of the package with another tensor_names.json; the recorded results (F_p value fingerprints under two primes, text after substitute_contracted, term counts) are compared offline; in-process hooks on GroundState.psi / norm_factor check that results never share contracted indices",
+    technique="runtime monitor: differential execution - every request of a catalogue runs in fresh interpreter processes under several PYTHONHASHSEEDs, after random prior API-call histories and from a scratch copy of the package with another tensor_names.json; the recorded results (F_p value fingerprints under two primes, text after substitute_contracted, term counts) are compared offline; in-process hooks on GroundState.psi / norm_factor and RegisteredIntermediate.expand_itmd check that results never share contracted indices",
     category='exploration', design='4/C19',
-    text="19 requests (quick; 30 thorough) x 3 hash seeds x up to 4 random histories + alternative (multi-character) name configuration = ~175 process runs per quick run; ~18000 monitored psi / norm_factor calls. Text differences whose per-term value multisets agree are classified as the open finding F6.",
+    text="23 requests (quick; 34 thorough) x 3 hash seeds x up to 4 random histories + alternative (multi-character) name configuration = ~175 process runs per quick run; ~18000 monitored psi / norm_factor calls. Text differences whose per-term value multisets agree are classified as the open finding F6.",
     note="A defect that is the same in every run (deterministic wrong value) is invisible to this differential check; values are decided by C02-C05. Trusted: TM fingerprints."),
 }
 
